@@ -8,6 +8,14 @@ CHECKS = {
    technique="TLA+ spec Conn.tla model-checked by TLC over the TLC-enumerated scenario space; the same scenarios replayed on the real Service over unix sockets and every recorded trace validated by TLC against ConnTrace.tla",
    text="TLC proves reply discipline (sequential meaning = operational machine under every schedule and segmentation, oneway/continues/arrival-order/no-overlap/no-dispatch-after-error invariants, independence of two connections) on the design for the bounded scenario space, and every scenario of that space (quick: a seeded sample) is executed against the real library, its trace being accepted only if TLC can explain every event with the spec's actions while all invariants hold in every state.",
    note="Trusted: TLC, the transcription of handleConnection/HandleMessage/Call.* into actions (bound by trace validation), the recorder's ordering discipline, scripted handlers. Bounds: <=3 calls per connection, scripts <=2 (quick 1) reply steps in the single-call family, 3 concurrent connections."),
+ "C04": dict(cat="model_checking", ref="DESIGN.md §3.1, §6 C04",
+   technique="Route() defined in TLA+ over method strings as character sequences (Conn.tla); TLC enumerates the method-string space and model-checks one-disposition/one-reply/connection-stays-usable; each string replayed on real services with 3 registration sets, traces validated by TLC",
+   text="The routing function is a TLA+ operator; TLC checks on the design that every method string has exactly one disposition and one reply and leaves the connection reading, and validates the traces of every enumerated string (all strings over {.,a,b,c} up to a bound, near-misses of registered names and of the built-in interface) sent to a real service with each of three registration sets, followed by a probe call on the same connection.",
+   note="Trusted: TLC; recorder classification of reply frames (error name + the single parameter); strings are valid UTF-8. Non-ASCII labels are represented by tokens (U1) concretised by the driver."),
+ "C10": dict(cat="model_checking", ref="DESIGN.md §3.1, §6 C10",
+   technique="Conn.tla model-checked (safety + liveness Released under weak fairness) over hostile stream scenarios incl. abort at every symbol offset; scenarios replayed on the real service (also with a concurrent well-behaved connection, and with the cut at every byte offset), traces validated by TLC; process crash = violation",
+   text="TLC proves on the design that garbage and partial frames are never dispatched or answered, that the connection is released after the peer disappears and the counter returns to zero, and that a neighbour connection is unaffected; the hostile streams are then sent to the real service and each trace (client writes, dispatches, replies, EOF, active-connection sample, final Shutdown) must be explainable by the spec.",
+   note="Trusted: TLC; kernel unix-socket semantics (write to a vanished peer may succeed or fail: both allowed by the spec); quiescence detection by counting listener/connection wrappers; 10 s watchdog for hangs."),
 }
 
 NOT_YET = {}
